@@ -223,6 +223,11 @@ impl<W: Write> Trace<W> {
 
     /// Executes an action and records it (if it was enabled).
     pub fn step(&mut self, sim: &mut Sim, ev: &str, args: Value) -> bool {
+        // with TickPolicy::EveryFrame the server itself decides: a frame ticks iff the server is running
+        let mut args = args;
+        if ev == "SrvFrame" && sim.cfg.every_frame {
+            args["tick"] = json!(sim.project_server()["running"] == json!(true));
+        }
         match exec(sim, ev, &args) {
             Ok(()) => {
                 self.write(sim, ev, &args);
